@@ -1713,6 +1713,26 @@ func (r *Raft) requestVote(rpc RPC, req *RequestVoteRequest) {
 			return
 		}
 	}
+	// Reject if their log is behind ours. This comes before the check for a
+	// recorded vote: a vote record can be half-written (term without candidate)
+	// after a store error or a crash, and must never stand in for this check.
+	lastIdx, lastTerm := r.getLastEntry()
+	if lastTerm > req.LastLogTerm {
+		r.logger.Warn("rejecting vote request since our last term is greater",
+			"candidate", candidate,
+			"last-term", lastTerm,
+			"last-candidate-term", req.LastLogTerm)
+		return
+	}
+
+	if lastTerm == req.LastLogTerm && lastIdx > req.LastLogIndex {
+		r.logger.Warn("rejecting vote request since our last index is greater",
+			"candidate", candidate,
+			"last-index", lastIdx,
+			"last-candidate-index", req.LastLogIndex)
+		return
+	}
+
 	// Check if we have voted yet
 	lastVoteTerm, err := r.stable.GetUint64(keyLastVoteTerm)
 	if err != nil && err.Error() != "not found" {
@@ -1732,24 +1752,6 @@ func (r *Raft) requestVote(rpc RPC, req *RequestVoteRequest) {
 			r.logger.Warn("duplicate requestVote from", "candidate", candidate)
 			resp.Granted = true
 		}
-		return
-	}
-
-	// Reject if their term is older
-	lastIdx, lastTerm := r.getLastEntry()
-	if lastTerm > req.LastLogTerm {
-		r.logger.Warn("rejecting vote request since our last term is greater",
-			"candidate", candidate,
-			"last-term", lastTerm,
-			"last-candidate-term", req.LastLogTerm)
-		return
-	}
-
-	if lastTerm == req.LastLogTerm && lastIdx > req.LastLogIndex {
-		r.logger.Warn("rejecting vote request since our last index is greater",
-			"candidate", candidate,
-			"last-index", lastIdx,
-			"last-candidate-index", req.LastLogIndex)
 		return
 	}
 
